@@ -1306,7 +1306,7 @@ def r_value_compare(prog, rep):
     r.check(ok, "taskIsComplete|vector-equality", "", "unchanged-value test is %s" % [expr_str(c) for c in cmp_], f)
 
 
-def aggregate_init(prog, node, record_suffix):
+def aggregate_init(prog, node, record_suffix, resolve=False):
     """{field name -> rendered initialiser} of the first aggregate initialiser under `node` for the given record.
     The extractor serialises the *semantic* form of an InitListExpr: one initialiser per field, in field order,
     with omitted fields present as their default member initialisers — so positions are field positions."""
@@ -1318,7 +1318,18 @@ def aggregate_init(prog, node, record_suffix):
         if x.get("k") == "initlist":
             a = arg_nodes(x)
             if len(a) == len(names):
-                return dict((nm, expr_str(core(v))) for nm, v in zip(names, a))
+                def shown(v):
+                    # a value hoisted into a local that is initialised once and never reassigned is shown as what it was initialised with
+                    cv = core(v)
+                    f_ = getattr(v, "fn", None)
+                    if resolve and cv is not None and cv.get("k") == "ref" and cv.get("did") is not None and f_ is not None:
+                        inits = [f_.nodes[w["init"]] for d in f_.nodes if d.get("k") == "decl" for w in d.get("vars", []) if w.get("did") == cv["did"] and "init" in w]
+                        writes = [n for n in f_.nodes if n.get("k") == "bin" and n.get("op", "").endswith("=") and n["op"] not in ("==", "!=", "<=", ">=") and
+                                  core(n.child("l")) is not None and core(n.child("l")).get("did") == cv["did"]]
+                        if inits and len(set(i_["id"] for i_ in inits)) == 1 and not writes and not any(p_["did"] == cv["did"] for p_ in f_.params):
+                            return expr_str(core(inits[0]))
+                    return expr_str(cv)
+                return dict((nm, shown(v)) for nm, v in zip(names, a))
     return None
 
 
@@ -1406,8 +1417,18 @@ def r_didwork(prog, rep):
         cs = f.calls(nm)
         if not cs:
             raise AnalysisBroken("executeTasks: %s not found" % nm)
+        # the flag is read at the end of the iteration (wait / cycle decision): what matters is that no path from the reset at the top of the
+        # iteration through this processing step reaches such a read without passing `didWork = true` — before or after the step
+        reads = set()
+        for b_ in f.blocks.values():
+            c_ = b_.effective_cond()
+            if c_ is not None and any(x.get("k") == "ref" and x.get("n") == "didWork" for x in c_.walk()):
+                reads.add((b_.id, len(b_.raw_elems)))
         for c in cs:
-            w = cfg.path_exists(f, dpos, lambda p, e, cp=cfg.pos_of(f, c): p == cp, avoid=sets)
+            cp_ = cfg.pos_of(f, c)
+            w = cfg.path_exists(f, dpos, lambda p, e, cp=cp_: p == cp, avoid=sets)
+            if w is not None:
+                w = cfg.path_exists(f, cp_, lambda p, e: (p in reads) or (e == "TERM" and p in reads) or e == "EXIT", avoid=sets)
             r.check(w is None, "executeTasks|didWork|%s" % label, "", "an item is processed without recording that work was done", f, c)
     waits = [c for c in f.calls() if (c.get("fn") or "").split("::")[-1] == "wait" and "finishedTaskInfosCondition" in expr_str(c.child("obj"))]
     # the whole wait branch sets didWork, whether or not it actually waited: once the engine has taken the queue lock in order to wait (the
@@ -1676,7 +1697,7 @@ def r_discovered_demanded(prog, rep):
         pb = [c for c in f.calls("push_back") if expr_str(c.child("obj")) == "inputRequests" and any(x is c for x in lp.walk())]
         ok = len(pb) == 1
         if ok:
-            got = aggregate_init(prog, arg_nodes(pb[0])[0], "TaskInputRequest") or {}
+            got = aggregate_init(prog, arg_nodes(pb[0])[0], "TaskInputRequest", resolve=True) or {}
             ls = LockSets(f)
             # the flags of a task-less request are never read (nothing is recorded and no value is delivered for it): only the null task and the rule matter
             ok = got.get("taskInfo") == "nullptr" and "getRuleInfoForKey(" in got.get("inputRuleInfo", "") and ("%s.keyID" % elem) in got.get("inputRuleInfo", "") and \
